@@ -3611,11 +3611,12 @@ class Wallet(object):
         for tx in txs:
             txid = tx[3].hex()
             if as_dict:
-                u = tx[0].__dict__
-                u['block_height'] = tx[0].transaction.block_height
-                u['date'] = tx[0].transaction.date
-                if '_sa_instance_state' in u:
-                    del u['_sa_instance_state']
+                block_height = tx[0].transaction.block_height
+                date = tx[0].transaction.date
+                # Work on a copy: tx[0] is an object of the database session
+                u = {k: v for k, v in tx[0].__dict__.items() if k != '_sa_instance_state'}
+                u['block_height'] = block_height
+                u['date'] = date
                 u['address'] = tx[1]
                 u['confirmations'] = None if tx[2] is None else int(tx[2])
                 u['txid'] = txid
